@@ -124,6 +124,12 @@ struct Ctx {
     rt: tokio::runtime::Runtime,
     n: u64,
     samples: Vec<J>,
+    /// clients kept across exchanges (second and later sends through the very same client object)
+    reuse: Option<(Arc<IppClient>, Arc<AsyncIppClient>)>,
+    /// request-ids of exchanges that are over: a request of a send that had already given up (tiny timeout) may reach
+    /// the server's log late, while the next exchange is running; it belongs to its own exchange, not to that one
+    past: std::collections::HashSet<u32>,
+    stale_dropped: u64,
 }
 
 fn attrs_len_of(p: &Plan) -> usize {
@@ -213,8 +219,10 @@ impl Ctx {
         let results: Arc<Mutex<Vec<(u32, &'static str, J, u64)>>> = Arc::new(Mutex::new(vec![]));
         // clients shared across the concurrent sends of one kind
         let first = sends[0].clone();
-        let shared_b = Arc::new(build_blocking(&first.2.parse().unwrap(), &first.3));
-        let shared_a = Arc::new(build_async(&first.2.parse().unwrap(), &first.3));
+        let (shared_b, shared_a) = match &self.reuse {
+            Some((b, a)) => (b.clone(), a.clone()),
+            None => (Arc::new(build_blocking(&first.2.parse().unwrap(), &first.3)), Arc::new(build_async(&first.2.parse().unwrap(), &first.3))),
+        };
         for (rid, kind, target, cfg, pay, k) in sends.into_iter() {
             let (req, am) = req_msg(rid, k, &target);
             built.insert(rid, (am, pay.clone(), cfg.clone(), target.clone()));
@@ -281,6 +289,10 @@ impl Ctx {
         for s in &seen {
             let tz = tokenize(&s.body);
             let rid = tz.hdr.map(|h| h.2).unwrap_or(0);
+            if !built.contains_key(&rid) && self.past.contains(&rid) {
+                self.stale_dropped += 1;
+                continue;
+            }
             let (am, pay, cfg, target) = match built.get(&rid) {
                 Some(x) => x.clone(),
                 None => (AMsg { ver: 0, code: 0, id: 0, groups: vec![] }, vec![], Cfg { headers: vec![], auth: None, timeout_ms: None }, String::new()),
@@ -315,6 +327,11 @@ impl Ctx {
             self.n += 1;
         }
         self.sink.emit(&json!({"ev": "endx"}), &side);
+        if self.reuse.is_none() {
+            for k in built.keys() {
+                self.past.insert(*k);
+            }
+        }
     }
 }
 
@@ -335,7 +352,7 @@ pub fn run(a: &Args) {
     let server4 = Server::start(mk_responder(plans.clone()), false);
     let server6 = std::panic::catch_unwind(|| Server::start(mk_responder(plans.clone()), true)).ok();
     let rt = tokio::runtime::Builder::new_multi_thread().worker_threads(4).enable_all().build().unwrap();
-    let mut cx = Ctx { drip_total: 0, sink: Sink::new(&out, "trace"), plans, server4, server6, rt, n: 0, samples: vec![] };
+    let mut cx = Ctx { drip_total: 0, sink: Sink::new(&out, "trace"), plans, server4, server6, rt, n: 0, samples: vec![], reuse: None, past: std::collections::HashSet::new(), stale_dropped: 0 };
     let p4 = cx.server4.port;
     let mut r = Rng::new(seed);
     let cfgs = [
@@ -487,13 +504,59 @@ pub fn run(a: &Args) {
             }
         }
     }
+    // (I') thorough: the answer written in pieces of every size 1 .. |header+attributes| + 3, each framing (every
+    //      position of a write / chunk boundary inside the attributes and around the end tag)
+    if want("frag") && !quick {
+        let probe = mk_plan(1, "length", 200, None, false, 0, 3, 0);
+        let alen = attrs_len_of(&probe);
+        for framing in ["length", "chunked", "close"] {
+            for piece in 1..=(alen + 3) {
+                let kind = if piece % 2 == 0 { "blocking" } else { "async" };
+                let id = next_rid();
+                let mut plan = mk_plan(id, framing, 200, None, false, 0, 3, 600);
+                plan.script.frag = piece;
+                cx.exchange("answer written in pieces of every size", vec![(id, kind, targets4[id as usize % 4].clone(), cfgs[id as usize % 4].clone(), pattern(50, id), 3)], vec![plan], None, false);
+            }
+        }
+    }
+    // (J) many concurrent senders through one client, each with its own document and its own answer, answers
+    //     released in reverse order of arrival
+    if want("conc") {
+        for kind in ["blocking", "async"] {
+            let nsend = if quick { 6usize } else { 16 };
+            let mut sends = vec![];
+            let mut pl = vec![];
+            let mut ids = vec![];
+            for i in 0..nsend {
+                let id = next_rid();
+                ids.push(id);
+                pl.push(mk_plan(id, ["length", "chunked", "close"][i % 3], 200, None, false, [0usize, 9, 4000][i % 3], i, 1000 + 37 * i));
+                sends.push((id, kind, targets4[1].clone(), cfgs[1].clone(), pattern(if i % 4 == 0 { 300_000 } else { 2000 + i }, id), i));
+            }
+            ids.reverse();
+            cx.exchange("many concurrent sends through one client, answers released in reverse order", sends, pl, Some(ids), false);
+        }
+    }
+    // (K) one client object used for several sends in a row, each request with the request-id the builders give (1),
+    //     different documents and answers: every send puts exactly ITS request on the wire and gets its own answer
+    if want("conc") {
+        for kind in ["blocking", "async"] {
+            let uri: Uri = targets4[1].parse().unwrap();
+            cx.reuse = Some((Arc::new(build_blocking(&uri, &cfgs[1])), Arc::new(build_async(&uri, &cfgs[1]))));
+            for round in 0..4usize {
+                let plans = (1..=5u32).map(|i| mk_plan(i, ["length", "chunked", "close"][(round + i as usize) % 3], 200, None, false, 0, round + i as usize, 10 * round + i as usize)).collect();
+                cx.exchange("the same client object again, request-id 1 as the builders give it", vec![(1, kind, targets4[1].clone(), cfgs[1].clone(), pattern(100 + 1000 * round, round as u32), round)], plans, None, false);
+            }
+            cx.reuse = None;
+        }
+    }
     // (H) a slow but never silent server: the answer dribbles in for longer than the request timeout
     if want("drip") {
         for framing in ["length", "chunked", "close"] {
             for kind in ["blocking", "async"] {
                 let id = next_rid();
                 let mut plan = mk_plan(id, framing, 200, None, false, 0, 2, 0);
-                let pieces = 12usize;
+                let pieces = 24usize;
                 plan.script.frag = (plan.script.body.len() / pieces).max(1);
                 plan.script.drip_ms = 130;
                 // total duration of the answer; reported as the stall length so that the trace specification
@@ -525,5 +588,5 @@ pub fn run(a: &Args) {
     let events = cx.sink.events;
     let (n, samples) = (cx.n, cx.samples.clone());
     cx.sink.finish();
-    write_run(&out, &json!({"prop": "C11", "evaluations": n, "events": events, "distinct_inputs": n, "samples": samples}));
+    write_run(&out, &json!({"prop": "C11", "evaluations": n, "events": events, "distinct_inputs": n, "samples": samples, "late_requests_of_finished_exchanges": cx.stale_dropped}));
 }
